@@ -114,6 +114,14 @@ CLAIMS = {
          "of a JSON-native value with text-distinct keys yields a value equal to the original. Tied to json.rs by the C02/C09 boundary value set (alone and "
          "nested), colliding-key maps and a recursive value generator, the model being told the hash maps' iteration order; totality and import/export laws "
          "are also evaluated on the implementation."),
+ "C05": ("PARTIAL. The model's evaluator is a function of (context, program) returning no context, so purity is checked on the implementation rather than "
+         "proved of the model: histories (one context, up to 50 executions) and thread runs (2-16 threads sharing one program set and one root context by "
+         "reference, each in its own inner scope) are answered execution by execution by the history-free model, and the harness additionally checks that every "
+         "context variable, the program and every earlier result are unchanged after each execution, that repetition and an equal fresh context give equal "
+         "results, and that no context-held buffer gained or lost an owner; Program/Context/Value are asserted Send+Sync at compile time. Theorems (induction on "
+         "the expression): the outcome and host-call log depend on the context only through its function registry and the lookups of the identifiers occurring in "
+         "the program (frame), hence equal contexts give equal results, an inner scope and a private unreferenced variable change nothing. Not modelled: thread "
+         "scheduling, the memory model, Arc's in-place-append optimisation (observed only through the harness laws)."),
  "C06": ("Theorems that Eval.eval (a structural Fixpoint transcribing Value::resolve) returns the left operand's outcome "
          "and host-call log alone when && / || are decided by it, evaluates exactly one branch of ?:, and propagates a "
          "left error - for every context and operand expression, hence at every depth and inside macro bodies. Tied to the "
